@@ -260,8 +260,13 @@ func cmdCheck(args []string) int {
 			continue
 		}
 		for _, f := range u.Fatal {
-			fmt.Fprintf(os.Stderr, "BROKEN: %s: %s\n", u.Name, f)
-			broken = true
+			fmt.Fprintf(os.Stderr, "NOTE: %s: %s\n", u.Name, f)
+		}
+		if len(u.Fatal) > 0 {
+			// the contract cannot be checked against the current code of this unit
+			// (construct outside the subset, or the specification no longer resolves):
+			// its obligations are not discharged
+			violations = append(violations, &Obligation{Name: u.Name + "/contract-not-checkable", Unit: u.Name, Kind: "fatal", Goal: "false", Result: "error", Note: strings.Join(u.Fatal, "; ")})
 		}
 		funcs = append(funcs, u.Name)
 		for _, n := range u.Notes {
@@ -300,8 +305,11 @@ func cmdCheck(args []string) int {
 				fmt.Fprintf(os.Stderr, "BROKEN: solvers disagree on %s (%s)\n", o.Name, o.Note)
 				broken = true
 			case "error":
-				fmt.Fprintf(os.Stderr, "BROKEN: solver error on %s (%s)\n", o.Name, o.Note)
-				broken = true
+				// the condition generated from the current tree is ill-formed for the
+				// solvers (typically: the code no longer matches the shape its contract
+				// speaks about); the obligation is not discharged
+				fmt.Fprintf(os.Stderr, "NOTE: solver error on %s (%s): contract and code no longer fit; obligation undischarged\n", o.Name, o.Note)
+				violations = append(violations, o)
 			default:
 				isKnown := false
 				for _, k := range known {
@@ -377,7 +385,7 @@ func cmdCheck(args []string) int {
 		fmt.Printf("VIOLATION property=%s replay=%s obligation=%s%s\n", *prop, rp, o.Name, suffix)
 		exit = 1
 	}
-	if broken {
+	if broken && len(violations) == 0 {
 		exit = 2
 	}
 	sort.Strings(funcs)
